@@ -226,7 +226,7 @@ def run_band(W, cfg):
         return
     # the advertised scratch size is the FFT grid for every wavelength of the band, also with oversampling (sampling du*os here,
     # so that the oversampled grid is the same N): a buffer of that size is accepted
-    for os_adv in (1, 2, 3):
+    for os_adv in ((1, 2, 3) if cfg['scales'] == 'scalar' else ()):
         adv = lt.scratch_shape(lam, dx, (du[0] * os_adv, du[1] * os_adv), f, os_adv)
         W.ob_true(f'advertised scratch shape = fft grid (oversample {os_adv})', tuple(int(x) for x in adv) == (Nr, Nc))
     pupil = lt.Pupil(amplitude=A, pixelscale=dx, focal_length=f, mask=rnp.ones((nr, nc), dtype=int))
